@@ -111,6 +111,13 @@ USSS = REG.add(Contract(
 USSS.note = "fmt % index[0] and index arithmetic are opaque numpy/format operations that may raise"
 
 
+arr_equal = z3.Function("np_array_equal", PyObj, PyObj, B)
+REG.add(Contract("lib:np.array_equal", params={"a1": "any", "a2": "any"}, assumed=True, noraise=True,
+                 returns=lambda c: VBool(arr_equal(c.eng.to_obj(c.a["a1"]), c.eng.to_obj(c.a["a2"]))),
+                 note="T-np: numpy.array_equal is a function of its two arguments (exact element-wise equality and equal shapes)",
+                 properties=("C16", "C11")))
+
+
 # ---- W2: the refresh decision of writer.write
 def w2_verify(E, c):
     body, fn = BL.find_block(E, "writer.write", "after:if version == 1.2:", "las.update_units_from_index_curve()")
@@ -127,6 +134,18 @@ W2 = REG.add(Contract(
     requires=lambda c: well_shape(c) + [("distinct-well-items", LI.distinct_objects(wv(c)))],
     raises=[("KeyError", missing_any)],
     ensures=lambda c: [("write-changes-only-STRT-STOP-STEP-values-and-units-and-the-first-curve's-unit", z3.BoolVal(True)),
+                       ("an-index-that-differs-from-the-snapshot-in-any-sample-counts-as-changed (exact array equality, no tolerance)", z3.Implies(
+                           z3.Not(is_none(z3.Select(c.old("index_initial"), c.a["las"].t))),
+                           c.v("index_changed").t == z3.Not(arr_equal(z3.Select(c.old("index_initial"), c.a["las"].t),
+                                                                     z3.Select(c.old("data"), API.cv(_SelfAlias(c, "las"), old=True).item(0)))))),
+                       ("a-header-STOP-that-differs-from-the-last-sample-of-the-snapshot-counts-as-different (exact comparison, no tolerance)",
+                        z3.Implies(z3.Not(is_none(z3.Select(c.old("index_initial"), c.a["las"].t))), z3.ForAll([z3.Int("r_stop")], z3.Implies(
+                            item_named(wv(c, old=True), K_STOP, z3.Int("r_stop")),
+                            c.v("stop_is_different").t == z3.Not(W.py_eq(
+                                z3.Function("py_getitem", PyObj, PyObj, PyObj)(z3.Select(c.old("index_initial"), c.a["las"].t), obj_of_int(z3.IntVal(-1))),
+                                z3.Select(c.old("value"), z3.Int("r_stop")))))))),
+                       ("without-a-snapshot-the-index-counts-as-changed", z3.Implies(
+                           is_none(z3.Select(c.old("index_initial"), c.a["las"].t)), c.v("index_changed").t)),
                        ("no-refresh-when-the-index-is-unchanged-and-STOP-agrees", z3.Implies(
                            z3.And(z3.Not(is_none(z3.Select(c.old("index_initial"), c.a["las"].t))),
                                   z3.Not(c.v("index_changed").t), z3.Not(c.v("stop_is_different").t)),
